@@ -12,7 +12,6 @@ def register(R):
     R.contract(
         "rich.live_render", "LiveRender.position_cursor", serves=["C10"],
         params={"self": "LiveRender"}, returns="Control",
-        requires=["implies(self._shape is not None, self._shape[1] >= 0)"],
         ensures=[
             "implies(self._shape is None, result._control_codes.text == '')",
             "implies(self._shape is not None, result._control_codes.text == '\\r\\x1b[2K' + '\\x1b[1A\\x1b[2K' * (self._shape[1] - 1))",
@@ -26,7 +25,6 @@ def register(R):
     R.contract(
         "rich.live_render", "LiveRender.restore_cursor", serves=["C10"],
         params={"self": "LiveRender"}, returns="Control",
-        requires=["implies(self._shape is not None, self._shape[1] >= 0)"],
         ensures=[
             "implies(self._shape is None, result._control_codes.text == '')",
             "implies(self._shape is not None, result._control_codes.text == '\\r' + '\\x1b[1A\\x1b[2K' * max(1, self._shape[1]))",
